@@ -11,6 +11,7 @@
 package vc01sl
 
 import (
+	"bytes"
 	"fmt"
 	"math"
 	"reflect"
@@ -57,6 +58,75 @@ type Spec struct {
 	// Skip names frames the codec documents as unsupported ("" = supported).
 	Skip  func(c vc01.Case) string
 	Bound string
+
+	// --- modification cases (Kind "mod"; Mod = body-<n> | add-key)
+	// ModCases enumerates them (both scribble twins).
+	ModCases func(yield func(vc01.Case) bool)
+	// Same reports whether a and b are each exactly one frame with the same content
+	// for the reference parser (order of header pairs / map entries ignored).
+	Same func(c vc01.Case, a, b []byte) bool
+	// ModBody returns the replacement data of n content bytes and the reference frame
+	// of the case carrying that data and id.
+	ModBody func(c vc01.Case, id uint64, n int) (data, frame []byte)
+	// AddHeader returns the reference frame of the case carrying id and one more
+	// header pair; nil: the frame's header map is a view without an encoder.
+	AddHeader func(c vc01.Case, id uint64, k, v string) []byte
+	// MustAccept: Encode may not refuse a modification that fits the wire format.
+	MustAccept bool
+}
+
+// ModNames are the modifications applied at the stream layer.
+var ModNames = []string{"body-0", "body-1", "body-256", "body-65536", "add-key"}
+
+// ModKey / ModVal are the header pair of the add-key modification.
+const (
+	ModKey = "vc01-added-key"
+	ModVal = "abc"
+)
+
+func modCases(codec string, dirs []string, modes func(dir string) []string, classes []int, shapes []vref.HeaderShape, id, nid uint64, yield func(vc01.Case) bool) {
+	bodies := []int{0, 1, 256, 65536}
+	if vreport.Thorough() {
+		bodies = vref.ContentLens
+	}
+	emit := twins(yield)
+	for _, dir := range dirs {
+		for _, mode := range modes(dir) {
+			for _, cl := range classes {
+				for _, hs := range shapes {
+					for _, bl := range bodies {
+						for _, mod := range ModNames {
+							if !emit(vc01.Case{Codec: codec, Dir: dir, Kind: "mod", Mode: mode, Mod: mod, Class: cl, Hdr: hs, Body: bl, Seed: cl + bl + 1, ID: id, NewID: nid}) {
+								return
+							}
+						}
+					}
+				}
+			}
+		}
+	}
+}
+
+var modShapes = []vref.HeaderShape{{}, {Pairs: 1, KLen: 1, VLen: 1}, {Pairs: 2, KLen: 1, VLen: 255}}
+
+func sameParsed[T any](parse func([]byte) (T, int, error), norm func(*T), a, b []byte) bool {
+	fa, na, ea := parse(a)
+	fb, nb, eb := parse(b)
+	if ea != nil || eb != nil || na != len(a) || nb != len(b) {
+		return false
+	}
+	if norm != nil {
+		norm(&fa)
+		norm(&fb)
+	}
+	return reflect.DeepEqual(fa, fb)
+}
+
+func noNil(b []byte) []byte {
+	if b == nil {
+		return []byte{}
+	}
+	return b
 }
 
 func twins(yield func(vc01.Case) bool) func(c vc01.Case) bool {
@@ -172,6 +242,26 @@ func Bolt(v2 bool) *Spec {
 			return ""
 		},
 		Bound: fmt.Sprintf("modes %q x dirs %v of the %s codec grid (%s)", modes, vc01.BoltDirs, name, quickBound),
+		ModCases: func(yield func(vc01.Case) bool) {
+			modCases(name, vc01.BoltDirs, func(string) []string { return modes }, []int{1, 256}, modShapes, 0x0a0b0c0d, 0xf1f2f3f4, yield)
+		},
+		Same: func(c vc01.Case, a, b []byte) bool {
+			return sameParsed(vref.ParseBolt, func(f *vref.BoltFrame) {
+				f.Headers, f.Class, f.Content = vref.SortedKVs(f.Headers), noNil(f.Class), noNil(f.Content)
+			}, a, b)
+		},
+		ModBody: func(c vc01.Case, id uint64, n int) ([]byte, []byte) {
+			f := ref(c)
+			f.ID, f.Content = uint32(id), vref.Bytes(n, 9)
+			return f.Content, f.Encode()
+		},
+		AddHeader: func(c vc01.Case, id uint64, k, v string) []byte {
+			f := ref(c)
+			f.ID = uint32(id)
+			f.Headers = append(f.Headers, vref.KV{K: []byte(k), V: []byte(v)})
+			return f.Encode()
+		},
+		MustAccept: true,
 	}
 }
 
@@ -373,6 +463,27 @@ func Dubbo() *Spec {
 			return ""
 		},
 		Bound: fmt.Sprintf("dirs %v (requests on listeners {any, ingress_dubbo}) of the dubbo codec grid (%s)", dubboDirs, quickBound),
+		ModCases: func(yield func(vc01.Case) bool) {
+			modCases("dubbo", []string{"request", "response"}, modesOf, []int{1, 256}, modShapes, 0x0a0b0c0d0e0f1011, 0xf1f2f3f4f5f6f7f8, func(c vc01.Case) bool {
+				if !dubboIsInvocation(c.Dir) && (c.Class != 1 || c.Hdr.Pairs != 0) {
+					return true // a response has neither path nor attachments
+				}
+				return yield(c)
+			})
+		},
+		Same: func(c vc01.Case, a, b []byte) bool {
+			return sameParsed(vref.ParseDubbo, func(f *vref.DubboFrame) { f.Payload = noNil(f.Payload) }, a, b)
+		},
+		ModBody: func(c vc01.Case, id uint64, n int) ([]byte, []byte) {
+			f := ref(c)
+			f.ID = id
+			if dubboIsInvocation(c.Dir) {
+				f.Payload = dubboInvocation(c, n).Encode()
+			} else {
+				f.Payload = vref.Bytes(n, 9)
+			}
+			return f.Payload, f.Encode()
+		},
 	}
 }
 
@@ -495,6 +606,20 @@ func DubboThrift() *Spec {
 		},
 		CheckAck: func(c vc01.Case, ack []byte) string { return "the dubbothrift codec knows no heartbeat" },
 		Bound:    fmt.Sprintf("dirs %v of the dubbothrift codec grid (service-name x method-name x binary field; %s)", thriftDirs, quickBound),
+		ModCases: func(yield func(vc01.Case) bool) {
+			modCases("dubbothrift", thriftDirs[:2], func(string) []string { return []string{""} }, []int{1, 256},
+				[]vref.HeaderShape{{Pairs: 1, KLen: 1}, {Pairs: 1, KLen: 256}}, 0x0a0b0c0d0e0f1011, 0xf1f2f3f4f5f6f7f8, yield)
+		},
+		Same: func(c vc01.Case, a, b []byte) bool {
+			return sameParsed(vref.ParseDubboThrift, func(f *vref.DubboThriftFrame) {
+				f.Service, f.Method, f.Args = noNil(f.Service), noNil(f.Method), noNil(f.Args)
+			}, a, b)
+		},
+		ModBody: func(c vc01.Case, id uint64, n int) ([]byte, []byte) {
+			f := ref(c)
+			f.ID, f.Args = id, vref.ThriftArgs(vref.Bytes(n, 9))
+			return f.Message(), f.Encode()
+		},
 	}
 }
 
@@ -598,7 +723,7 @@ func tarsMaxPairs(c vc01.Case) int {
 
 // Tars returns the tars spec.
 func Tars() *Spec {
-	return &Spec{
+	sp := &Spec{
 		Name: "tars",
 		Cases: func(yield func(vc01.Case) bool) {
 			wide := vreport.Thorough()
@@ -738,6 +863,28 @@ func Tars() *Spec {
 			}
 			return 1
 		},
+		ModCases: func(yield func(vc01.Case) bool) {
+			modCases("tars", tarsDirs, func(string) []string { return []string{""} }, []int{1, 100}, []vref.HeaderShape{{}, {Pairs: 1, KLen: 1, VLen: 1}}, 0x0a0b0c0d, 0x71f2f3f4, yield)
+		},
+		ModBody: func(c vc01.Case, id uint64, n int) ([]byte, []byte) {
+			// the tars codec exposes the WHOLE frame as data: the replacement is a well-formed
+			// frame of the same packet whose sBuffer has n bytes, carrying the id
+			var b []byte
+			if c.Dir == "request" {
+				r := tarsRequest(c)
+				r.Buffer, r.ID = vref.Bytes(n, 9), int32(uint32(id))
+				b = r.Encode()
+			} else {
+				r := tarsResponse(c)
+				r.Buffer, r.ID = vref.Bytes(n, 9), int32(uint32(id))
+				b = r.Encode()
+			}
+			return b, b
+		},
 		Bound: fmt.Sprintf("dirs %v of the tars codec grid (canonical frames; servant-name|result-desc x context|status map x sBuffer; + old id x new id over every integer width; %s)", tarsDirs, quickBound),
 	}
+	sp.Same = func(c vc01.Case, a, b []byte) bool {
+		return bytes.Equal(a, b) || sp.DiffClass(c, a, b) == sp.Unstable
+	}
+	return sp
 }
